@@ -340,7 +340,24 @@ pub fn run(tier: Tier) -> i32 {
         }
         for v in rest.split('\u{3}').filter(|s| !s.is_empty()) {
             let (c, w) = v.split_once('\u{1}').unwrap_or((v, ""));
-            stats.violation(mk(*i, c.to_string(), w.replace("\\n", "\n")));
+            // the class also names how the input was made (family + edit kind), so that a known
+            // finding about, say, token replacements does not hide a new one reached by
+            // identifier edits
+            let (fam, desc, _, _) = sp.nth(*i);
+            let tag = match fam.as_str() {
+                "token-edit" => {
+                    let d = desc.rsplit(": ").next().unwrap_or("");
+                    let k = ["delete", "duplicate", "swap", "drop first", "drop last", "append", "replace"].iter().find(|k| d.starts_with(**k)).copied().unwrap_or("edit");
+                    format!("token-{}", k.replace(' ', "-"))
+                }
+                "line-edit" => {
+                    let d = desc.rsplit(": ").next().unwrap_or("");
+                    format!("line-{}", d.split(' ').next().unwrap_or("edit"))
+                }
+                "hostile" => format!("hostile:{desc}"),
+                other => other.to_string(),
+            };
+            stats.violation(mk(*i, format!("{c}/{tag}"), w.replace("\\n", "\n")));
         }
     }
     for (i, how) in &res.crashes {
